@@ -47,6 +47,10 @@ CHECKS = {
    technique="exhaustive product enumeration (-f x file-name spellings x contents x supply kinds x targets) through the real binary, compared with the library run in-process for the source the reference rule resolves",
    text="For the full product of -f option, extension spelling in every letter case, multi-dot / hidden / extension-less / misleading names, contents of each format (and ambiguous, invalid, empty), regular file / FIFO / stdin / '-' supply and all targets: stdout and exit status equal the library's result for the source resolved by -f > extension > detection; '-' at every position, '-' twice, directories and nested paths agree with one in-process Translator.",
    note="Trusted: std::path extension semantics for 'last extension'; the library as the oracle for bytes (its own correctness is C01-C12's subject)."),
+ "C15": dict(cat="fault_enumeration", design="4.15",
+   technique="exhaustive enumeration of input lists (size classes x failure kinds x failing position x targets x stdout kind) through the real binary, compared with one in-process Translator",
+   text="For every list of up to 3 inputs (thorough: 6) over output size classes from 12 B to 1.2 MB and every failure kind at every position, all targets, stdout a pipe or a file: exit 1 exactly when the library fails, and stdout then starts with the complete translations of all earlier inputs; all-good lists exit 0 with every byte written.",
+   note="Trusted: the library run in-process as the byte oracle."),
 }
 
 NOT_YET = "check not built yet (planned in DESIGN.md section 4); not claimed until registered under checks"
